@@ -49,7 +49,9 @@ LEVEL_TEXT = ("Generated jobs, fault patterns and latencies against a protocol "
 CMDS = ["G1 X{a} Y{b}", "G0 Z{a}", "G1 X{a} F{b}", "M104 S{a}", "M106 S{a}", "G92 E0",
         "G28", "M400", "G1 E{a}", "M140 S{b}", "G4 P{a}", "T{c}", "M84",
         "G1 X{a}.125 Y{b}.5 Z{a}.25 E{b}.0625 F{a} A{b} B{a} C{b}",
-        "M117 printing layer {a} of {b} please wait"]
+        "M117 printing layer {a} of {b} please wait",
+        # '/' and '*' are ordinary characters of a command's text
+        "M117 Layer {a}/{b}", "M23 /gcodes/part{a}.g", "M117 {a}% *done* {b}"]
 
 
 def strip_comment(line):
@@ -130,65 +132,104 @@ def _run_job(case, budget, _patched, _barrier, _lock):
     import contextlib
     from gscrib.printrun import printcore, gcoder
     from vf.firmware import FakeSerial
-    lines = render_job(case["job"])
     lat = case["lat"] or [0]
-    fw = Firmware(greeting=case["greeting"], dialect=case["dialect"],
-                  corrupt=set(case["corrupt"]),
-                  latency=lambda i: lat[i % len(lat)])
+
+    def new_fw(corrupt):
+        return Firmware(greeting=case["greeting"], dialect=case["dialect"],
+                        corrupt=set(corrupt), latency=lambda i: lat[i % len(lat)])
+    fw = new_fw(case["corrupt"])
     errors = []
     ctxmgr = contextlib.nullcontext() if _patched else patched_serial(fw)
+
+    def connect(p, fw):
+        if _patched:
+            with _lock:          # FakeSerial picks its firmware at construction
+                FakeSerial.firmware = fw
+                p.connect("/dev/ttyVERIF", 115200)
+        else:
+            FakeSerial.firmware = fw
+            p.connect("/dev/ttyVERIF", 115200)
+        t0 = time.time()
+        while not p.online and time.time() - t0 < 10:
+            time.sleep(0.002)
+        if not p.online:
+            raise HarnessError("printcore did not come online against the simulator")
+        while fw.pending() and time.time() - t0 < 10:
+            time.sleep(0.002)
+
+    def stream(p, fw, job, barrier=None):
+        lines = render_job(job)
+        g = gcoder.GCode(lines)
+        expected = [strip_comment(l) for l in lines]
+        expected = [e for e in expected if e]
+        if barrier is not None:
+            try:
+                barrier.wait(10)
+            except Exception:
+                pass
+        started = p.startprint(g)
+        if not started:
+            raise HarnessError("startprint refused")
+        t0 = time.time()
+        last_progress = (-1, -1, -1)
+        last_change = time.time()
+        status = "ok"
+        while True:
+            with fw.lock:
+                pend = len(fw.out)
+                # replies still being read by the sender are activity too
+                prog = (len(fw.rx), len(fw.accepted), pend)
+            if prog != last_progress:
+                last_progress = prog
+                last_change = time.time()
+            done = (not p.printing) and pend == 0
+            if done and time.time() - last_change > 0.05:
+                break
+            if time.time() - last_change > 3.0:
+                status = "stalled"
+                break
+            if time.time() - t0 > budget:
+                status = "budget"
+                break
+            time.sleep(0.003)
+        return expected, status, p.printing
+
     with ctxmgr:
         p = printcore()
         p.loud = False
         p.errorcb = errors.append
         try:
-            if _patched:
-                with _lock:          # FakeSerial picks its firmware at construction
-                    FakeSerial.firmware = fw
-                    p.connect("/dev/ttyVERIF", 115200)
-            else:
-                p.connect("/dev/ttyVERIF", 115200)
-            t0 = time.time()
-            while not p.online and time.time() - t0 < 10:
-                time.sleep(0.002)
-            if not p.online:
-                raise HarnessError("printcore did not come online against the simulator")
-            while fw.pending() and time.time() - t0 < 10:
-                time.sleep(0.002)
-            g = gcoder.GCode(lines)
-            expected = [strip_comment(l) for l in lines]
-            expected = [e for e in expected if e]
-            if _barrier is not None:
+            connect(p, fw)
+            expected, status, printing_after = stream(p, fw, case["job"], _barrier)
+            sec = case.get("second")
+            if sec and status == "ok" and not _patched:
+                # the SAME sender object streams a second job: on the same
+                # connection, or after a disconnect and a connect to a freshly
+                # booted device.  The first job is judged here, the second one
+                # by the caller (through fw.case_view).
                 try:
-                    _barrier.wait(10)
-                except Exception:
-                    pass
-            started = p.startprint(g)
-            if not started:
-                raise HarnessError("startprint refused")
-            t0 = time.time()
-            last_progress = (-1, -1, -1)
-            last_change = time.time()
-            status = "ok"
-            while True:
-                with fw.lock:
-                    pend = len(fw.out)
-                    # replies still being read by the sender are activity too
-                    prog = (len(fw.rx), len(fw.accepted), pend)
-                if prog != last_progress:
-                    last_progress = prog
-                    last_change = time.time()
-                done = (not p.printing) and pend == 0
-                if done and time.time() - last_change > 0.05:
-                    break
-                if time.time() - last_change > 3.0:
-                    status = "stalled"
-                    break
-                if time.time() - t0 > budget:
-                    status = "budget"
-                    break
-                time.sleep(0.003)
-            printing_after = p.printing
+                    _judge(case, (fw, expected, status, printing_after, errors), set())
+                except Violation as v:
+                    raise Violation("first job: " + str(v))
+                try:
+                    if sec["reconnect"]:
+                        p.disconnect()
+                        fw = new_fw(sec["corrupt"])
+                        connect(p, fw)
+                    else:
+                        with fw.lock:
+                            del fw.rx[:], fw.accepted[:], fw.accepted_job[:], fw.accepted_numbers[:]
+                            del fw.transmissions[:], fw.resend_requests[:], fw.wire_errors[:]
+                            fw.tx_index = 0
+                            fw.corrupt = set(sec["corrupt"])
+                    expected, status, printing_after = stream(p, fw, sec["job"])
+                except HarnessError as e:
+                    # the first job went through on this very sender: a sender
+                    # that cannot reconnect or refuses the next job is at fault
+                    raise Violation(f"second job on the same sender "
+                                    f"({'after reconnecting' if sec['reconnect'] else 'same connection'}): {e}")
+                fw.case_view = dict(case, job=sec["job"], corrupt=sec["corrupt"])
+                fw.second = "reconnected" if sec["reconnect"] else "same_connection"
         finally:
             try:
                 p.disconnect()
@@ -255,6 +296,9 @@ def judge(case, result, cl, label=""):
 def _judge(case, result, cl):
     fw, expected, status, printing_after, errors = result
     LAST["fw"], LAST["expected"] = fw, expected
+    case = getattr(fw, "case_view", case)
+    if getattr(fw, "second", None):
+        cl.add("second_job_on_same_sender:" + fw.second)
     job_desc = f"job={render_job(case['job'])!r} corrupt={sorted(case['corrupt'])} " \
                f"lat={case['lat']} dialect={case['dialect']}"
     if status == "budget":
@@ -351,11 +395,11 @@ def job_strategy():
     n = st.integers(0, 250)
     word = st.sampled_from(["layer 1", "x", "perimeter", "G1 X5", "tool (a)", ""])
     item = st.one_of(
-        st.fixed_dictionaries({"k": st.just("cmd"), "cmd": st.integers(0, 14), "a": n, "b": n,
+        st.fixed_dictionaries({"k": st.just("cmd"), "cmd": st.integers(0, 17), "a": n, "b": n,
                                "inline": st.one_of(st.none(), st.none(), st.sampled_from(["note", "G1 X9", "a b"])),
                                "trail": st.one_of(st.none(), st.none(), word),
                                "indent": st.booleans()}),
-        st.fixed_dictionaries({"k": st.just("cmd"), "cmd": st.integers(0, 14), "a": n, "b": n}),
+        st.fixed_dictionaries({"k": st.just("cmd"), "cmd": st.integers(0, 17), "a": n, "b": n}),
         st.fixed_dictionaries({"k": st.just("comment"), "text": word}),
         st.fixed_dictionaries({"k": st.just("blank"), "text": st.sampled_from(["", "   "])}),
     )
@@ -371,6 +415,9 @@ def strategy():
         "lat": st.lists(st.integers(0, 6), min_size=1, max_size=7),
         "dialect": st.sampled_from(["marlin", "marlin", "marlin_nospace", "teacup"]),
         "greeting": st.sampled_from(["start", None]),
+        "second": st.one_of(st.none(), st.none(), st.none(), st.fixed_dictionaries({
+            "job": job_strategy(), "reconnect": st.booleans(),
+            "corrupt": st.lists(st.integers(0, 12), max_size=4, unique=True).map(sorted)})),
         "companion": st.one_of(st.none(), st.none(), st.none(), st.fixed_dictionaries({
             "job": job_strategy(),
             "corrupt": st.lists(st.integers(0, 12), max_size=4, unique=True).map(sorted),
